@@ -1154,6 +1154,10 @@ class Gen:
             return self.leaf(T, env, known)
         r = self.rng
         k = T[0]
+        if k in ("dict", "arr") and n >= 4 and not has_tvars(T) and needs_known(T) and r.chance(1, 3):
+            t = self.s_subsume(T, env, n, known)
+            if t is not None:
+                return t
         strategies = [("intro", 10), ("app", 9), ("if", 2), ("let", 5), ("proj", 3), ("match", 3), ("annt", 1), ("hole", 2),
                       ("dynget", 1), ("beta", 1), ("var", 2), ("letpoly", 3 if n >= 6 else 0), ("letrec", 1 if n >= 8 else 0)]
         if k == "tvar" or (k in ("rec", "enum") and isinstance(T[2], tuple)):
@@ -1238,10 +1242,6 @@ class Gen:
             m = r.range(1, min(4, max(1, n - 1)))
             es = [self.gen(T[1], env, p, known) for p in self.split(n - 1, m)]
             return None if None in es else ("arr", tuple(es))
-        if k in ("dict", "arr") and not has_tvars(T) and n >= 4 and r.chance(1, 4):
-            t = self.s_subsume(T, env, n, known)
-            if t is not None:
-                return t
         if k == "dict":
             m = r.range(1, min(3, max(1, n - 1)))
             fs = r.shuffle(FIELDS)[:m]
